@@ -253,6 +253,32 @@ func (obj *Package) Unuse(pkg *Package) {
 	}
 }
 
+// inheritVar stores the exported variable with the given name of the first
+// used package that owns one in the package's table. It is called when the
+// package's entry for the name has just been deleted. The caller holds the
+// lock.
+func (obj *Package) inheritVar(name string) {
+	for _, p := range obj.Uses {
+		if vv := p.vars[name]; vv != nil && vv.Pkg == p && vv.Export {
+			obj.vars[name] = vv
+			break
+		}
+	}
+}
+
+// inheritFunc stores the exported function with the given name of the first
+// used package that owns one in the package's table. It is called when the
+// package's entry for the name has just been deleted. The caller holds the
+// lock.
+func (obj *Package) inheritFunc(name string) {
+	for _, p := range obj.Uses {
+		if fi := p.funcs[name]; fi != nil && fi.Pkg == p && fi.Export {
+			obj.funcs[name] = fi
+			break
+		}
+	}
+}
+
 // Import another package variable
 func (obj *Package) Import(pkg *Package, varName string) {
 	obj.mu.Lock()
@@ -406,9 +432,11 @@ func (obj *Package) Remove(name string) (removed bool) {
 	if _, has := obj.vars[name]; has {
 		delete(obj.vars, name)
 		removed = true
+		obj.inheritVar(name)
 		for _, u := range obj.Users {
 			if vv := u.vars[name]; vv != nil && vv.Pkg == obj {
 				delete(u.vars, name)
+				u.inheritVar(name)
 			}
 		}
 	}
@@ -534,6 +562,7 @@ func (obj *Package) Unexport(name string) {
 				u.mu.Lock()
 				if xf := u.funcs[name]; xf != nil && obj == xf.Pkg {
 					delete(u.funcs, name)
+					u.inheritFunc(name)
 				}
 				u.mu.Unlock()
 			}
@@ -546,6 +575,7 @@ func (obj *Package) Unexport(name string) {
 				u.mu.Lock()
 				if xv := u.vars[name]; xv != nil && obj == xv.Pkg {
 					delete(u.vars, name)
+					u.inheritVar(name)
 				}
 				u.mu.Unlock()
 			}
@@ -560,10 +590,12 @@ func (obj *Package) Undefine(name string) {
 	obj.mu.Lock()
 	if fi := obj.funcs[name]; fi != nil {
 		delete(obj.funcs, name)
+		obj.inheritFunc(name)
 		for _, u := range obj.Users {
 			u.mu.Lock()
 			if xf := u.funcs[name]; xf != nil && xf.Pkg == obj {
 				delete(u.funcs, name)
+				u.inheritFunc(name)
 			}
 			u.mu.Unlock()
 		}
@@ -963,10 +995,12 @@ func (obj *Package) DefLambda(name string, lam *Lambda, fc func(args List) Objec
 		if vv := obj.vars[name]; vv != nil && vv.Pkg == obj && Unbound == vv.Val && vv.Export {
 			fi.Export = true
 			delete(obj.vars, name)
+			obj.inheritVar(name)
 			for _, u := range obj.Users {
 				u.mu.Lock()
 				if xv := u.vars[name]; xv == vv {
 					delete(u.vars, name)
+					u.inheritVar(name)
 				}
 				u.mu.Unlock()
 			}
